@@ -564,6 +564,9 @@ func (d *dataCloser) Close() error {
 	defer d.c.conn.SetDeadline(time.Time{})
 
 	expectedResponses := len(d.c.rcpts)
+	// Without a status callback a refusal must not get lost: the first one
+	// is returned once every reply has been read.
+	var refusal error
 	if d.c.lmtp {
 		for expectedResponses > 0 {
 			rcpt := d.c.rcpts[len(d.c.rcpts)-expectedResponses]
@@ -571,6 +574,8 @@ func (d *dataCloser) Close() error {
 				if smtpErr, ok := err.(*SMTPError); ok {
 					if d.statusCb != nil {
 						d.statusCb(rcpt, smtpErr)
+					} else if refusal == nil {
+						refusal = smtpErr
 					}
 				} else {
 					return err
@@ -588,7 +593,7 @@ func (d *dataCloser) Close() error {
 	}
 
 	d.closed = true
-	return nil
+	return refusal
 }
 
 // Data issues a DATA command to the server and returns a writer that
